@@ -88,6 +88,78 @@ def strings(s: str, t: str, opi: int) -> bool:
     return got == exp
 
 
+# ---- contains on every property kind: substring of a string, key of a dictionary, value of a dictionary (dict filter value), any element of a list
+_F21 = {"type": "file", "spec_version": "2.1", "id": "file--311b2d2d-f010-4473-83ec-1edf84858f4c", "name": "f.txt", "hashes": {"MD5": "0" * 32, "SHA-256": "1" * 64},
+        "extensions": {"pdf-ext": {"version": "1.7", "is_optimized": False}, "ntfs-ext": {"sid": "1.7"}}}
+_M21 = {"type": "malware", "spec_version": "2.1", "id": "malware--311b2d2d-f010-4473-83ec-1edf84858f4c", "created": "2020-01-01T00:00:00.000Z",
+        "modified": "2020-01-01T00:00:00.000Z", "name": "mal", "is_family": False, "labels": ["alpha", "b"],
+        "external_references": [{"source_name": "src", "external_id": "1"}, {"source_name": "other", "url": "http://x"}]}
+CONTAINS = [  # (document, property path, filter value)
+    (_F21, "hashes", "MD5"), (_F21, "hashes", "0" * 32), (_F21, "hashes", "SHA-1"), (_F21, "hashes", "MD"), (_F21, "extensions", "pdf-ext"),
+    (_F21, "extensions", "version"), (_F21, "extensions", {"sid": "1.7"}), (_F21, "extensions", {"sid": "1.8"}), (_F21, "extensions", "1.7"),
+    (_F21, "extensions.pdf-ext", "version"), (_F21, "extensions.pdf-ext", "1.7"), (_F21, "extensions.pdf-ext.version", "1."), (_F21, "name", ".txt"), (_F21, "name", "F"),
+    (_M21, "labels", "alpha"), (_M21, "labels", "lph"), (_M21, "labels", "z"), (_M21, "labels", ""), (_M21, "name", "al"), (_M21, "name", "mal "),
+    (_M21, "external_references", "source_name"), (_M21, "external_references", "src"), (_M21, "external_references", "url"),
+    (_M21, "external_references.source_name", "the"), (_M21, "external_references.external_id", "2"), (_M21, "external_references.url", "x"),
+]
+NCONT = len(CONTAINS)
+
+
+def _ref_contains(pv, fv):
+    if isinstance(pv, list):
+        return any(_ref_contains(e, fv) for e in pv)
+    if isinstance(fv, dict):
+        return isinstance(pv, dict) and any(v == fv for v in pv.values())
+    return fv in pv           # substring of a string, key of a dictionary
+
+
+def _ref_path(doc, path, fv):
+    head, _, rest = path.partition(".")
+    if not isinstance(doc, dict) or head not in doc:
+        return False
+    v = doc[head]
+    if not rest:
+        return _ref_contains(v, fv)
+    if isinstance(v, list):
+        return any(_ref_path(e, rest, fv) for e in v)
+    return _ref_path(v, rest, fv)
+
+
+def contains_kinds(ci: int, form: int, neg: bool) -> bool:
+    """
+    pre: 0 <= ci < NCONT and 0 <= form < 4
+    post: _
+    """
+    ci, form, neg = pick(ci, NCONT), pick(form, 4), pickb(neg)
+    with Native():
+        ok = run_contains_case(ci, form, neg)
+    V.reached()
+    return ok
+
+
+def run_contains_case(ci, form, neg):
+    doc, path, fv = CONTAINS[ci]
+    want = _ref_path(doc, path, fv)
+    flt = [Filter(path, "contains", fv)] + ([Filter("type", "!=", doc["type"])] if neg else [])
+    want = want and not neg
+    if form == 0:
+        got = len(list(apply_common_filters([doc], flt)))                      # kept as a dictionary
+    elif form == 1:
+        got = len(list(apply_common_filters([stix2.parse(doc)], flt)))         # library object
+    elif form == 2:
+        got = len(MemorySource([doc, _M21 if doc is _F21 else _F21]).query(flt))
+    else:
+        ffs = fakefs.FakeFS()
+        saved = fakefs.install(fs, ffs)
+        try:
+            store = fs.FileSystemStore("/fs", allow_custom=False)
+            store.add([doc, _M21 if doc is _F21 else _F21])
+            got = len(store.query(flt))
+        finally:
+            fs.os, fs.io = saved
+    return got == (1 if want else 0)
+
+
 def dotted(opi: int, a: int, b: int, has_b: bool, fv: int, deep: bool) -> bool:
     """
     pre: 0 <= opi < 6
@@ -199,6 +271,8 @@ def mkf(p, o, v):
         return Filter(prop, "=", val)
     if o == 1:
         return Filter(prop, "!=", val)
+    if o == 3:
+        return Filter(prop, "in", [])
     return Filter(prop, "in", [val, nxt])
 
 
@@ -240,7 +314,7 @@ def fs_source():
     return _FS_STATE["src"]
 
 
-def run_opt_case(spec):
+def run_opt_case(spec, route=0):
     filters = [mkf(*s) for s in spec]
     at, ai = fs._find_search_optimizations(filters)
     for o in POP:
@@ -250,6 +324,18 @@ def run_opt_case(spec):
     ffs, store = fs_source()
     saved = fakefs.install(fs, ffs)
     try:
+        if route:
+            # the same conjunction reaching the source by its three routes: attached, query argument, handed down by a composite
+            src = fs.FileSystemSource("/fs", allow_custom=False)
+            src.filters.add(filters[0])
+            rest = filters[1:]
+            handed = FilterSet()
+            handed.add(rest[-1:])
+            r = sorted((o["id"], str(stix2.utils.parse_into_datetime(stix2.utils.format_datetime(o["modified"])))) for o in
+                       src.query(rest[:-1], _composite_filters=handed))
+            w = sorted((o["id"], str(stix2.utils.parse_into_datetime(o["modified"]))) for o in apply_common_filters(POP, filters))
+            if r != w:
+                return False
         got = sorted((o["id"], str(o["modified"])) for o in store.source.query(filters))
         want = sorted((o["id"], str(stix2.utils.parse_into_datetime(o["modified"]))) for o in apply_common_filters(POP, filters))
         got = sorted((i, str(stix2.utils.parse_into_datetime(stix2.utils.format_datetime(m) if not isinstance(m, str) else m))) for i, m in
@@ -262,11 +348,11 @@ def run_opt_case(spec):
 
 def optimiser2(p1: int, o1: int, v1: int, p2: int, o2: int, v2: int) -> bool:
     """
-    pre: 0 <= p1 <= 1 and 0 <= o1 <= 2 and 0 <= v1 <= 3
-    pre: 0 <= p2 <= 1 and 0 <= o2 <= 2 and 0 <= v2 <= 3
+    pre: 0 <= p1 <= 1 and 0 <= o1 <= 3 and 0 <= v1 <= 3
+    pre: 0 <= p2 <= 1 and 0 <= o2 <= 3 and 0 <= v2 <= 3
     post: _
     """
-    spec = [(pick(p1, 2), pick(o1, 3), pick(v1, 4)), (pick(p2, 2), pick(o2, 3), pick(v2, 4))]
+    spec = [(pick(p1, 2), pick(o1, 4), pick(v1, 4)), (pick(p2, 2), pick(o2, 4), pick(v2, 4))]
     with Native():
         ok = run_opt_case(spec)
     V.reached()
@@ -275,14 +361,30 @@ def optimiser2(p1: int, o1: int, v1: int, p2: int, o2: int, v2: int) -> bool:
 
 def optimiser3(p1: int, o1: int, v1: int, p2: int, o2: int, v2: int, p3: int, o3: int, v3: int) -> bool:
     """
-    pre: 0 <= p1 <= 1 and 0 <= o1 <= 2 and 0 <= v1 <= 3 and p1 * 12 + o1 * 4 + v1 == PARTNO
-    pre: 0 <= p2 <= 1 and 0 <= o2 <= 2 and 0 <= v2 <= 3
-    pre: 0 <= p3 <= 1 and 0 <= o3 <= 2 and 0 <= v3 <= 3
+    pre: 0 <= p1 <= 1 and 0 <= o1 <= 3 and 0 <= v1 <= 3 and p1 * 16 + o1 * 4 + v1 == PARTNO
+    pre: 0 <= p2 <= 1 and 0 <= o2 <= 3 and 0 <= v2 <= 3
+    pre: 0 <= p3 <= 1 and 0 <= o3 <= 3 and 0 <= v3 <= 3
     post: _
     """
-    spec = [(pick(p1, 2), pick(o1, 3), pick(v1, 4)), (pick(p2, 2), pick(o2, 3), pick(v2, 4)), (pick(p3, 2), pick(o3, 3), pick(v3, 4))]
+    spec = [(pick(p1, 2), pick(o1, 4), pick(v1, 4)), (pick(p2, 2), pick(o2, 4), pick(v2, 4)), (pick(p3, 2), pick(o3, 4), pick(v3, 4))]
     with Native():
         ok = run_opt_case(spec)
+    V.reached()
+    return ok
+
+
+def optimiser3_allow(p: int, o1: int, v1: int, o2: int, v2: int, o3: int, v3: int, route: bool) -> bool:
+    """
+    pre: 0 <= p <= 1 and 0 <= v1 <= 3 and 0 <= v2 <= 3 and 0 <= v3 <= 3
+    pre: (o1 == 0 or o1 == 2 or o1 == 3) and (o2 == 0 or o2 == 2 or o2 == 3) and (o3 == 0 or o3 == 2 or o3 == 3)
+    pre: p * 2 + (1 if route else 0) == PARTNO
+    post: _
+    """
+    p = pick(p, 2)
+    spec = [(p, (0, 2, 3)[pick((0, 2, 3).index(o), 3)], pick(v, 4)) for o, v in ((o1, v1), (o2, v2), (o3, v3))]
+    route = pickb(route)
+    with Native():
+        ok = run_opt_case(spec, 1 if route else 0)
     V.reached()
     return ok
 
